@@ -85,6 +85,10 @@ ODD = ["bogus", "COMPLETED", "Success", "Running", "CANCELED", "", "cancel reque
        "ERROR", "done"]
 
 
+class LoopRunaway(Exception):
+    """the polling loop of execute_sync went on sleeping without asking the server"""
+
+
 class ScriptExhausted(Exception):
     """the real code sent a request the history has no answer for"""
 
@@ -119,17 +123,23 @@ class World:
         self.k = 0
         self.status_q = []
         self.h = None
+        self.h2 = None
+        self.pending_ok = False
         self.calls = []
         self.served = []
+        self.events = []
         self.anomalies = []
 
     # -- script -----------------------------------------------------------------------------------
-    def begin(self, k, status_rs, h):
+    def begin(self, k, status_rs, h, h2=None, pending_ok=False):
         self.k = k
         self.status_q = list(status_rs)
         self.h = h
+        self.h2 = h2                    # answer to the second non-status request of the step (execute_sync)
+        self.pending_ok = pending_ok    # running out of status answers is an outcome (execute_sync's loop)
         self.calls = []
         self.served = []
+        self.events = []                # requests and sleeps in order (clocked execute_sync)
 
     def _resp(self, url, code, body: bytes):
         r = self.requests.Response()
@@ -161,7 +171,7 @@ class World:
     def _take_h(self, what):
         if self.h is None:
             raise ScriptExhausted(what)
-        h, self.h = self.h, None
+        h, self.h, self.h2 = self.h, self.h2, None
         return h
 
     # -- the two functions rpc_handler.py uses ----------------------------------------------------
@@ -169,7 +179,10 @@ class World:
         self._check_headers(headers)
         tail = url[len(URL):] if url.startswith(URL) else "?" + url
         if tail.startswith("/api/job/status/"):
+            if not self.status_q and self.pending_ok:
+                raise ScriptExhausted("status")      # the polling loop would go on: not a request of the script
             self.calls.append("S" + self._cid(tail[16:]))
+            self.events.append("S" + self._cid(tail[16:]))
             if not self.status_q:
                 raise ScriptExhausted("status")
             r = self.status_q.pop(0)
@@ -215,6 +228,10 @@ class World:
 def status_body(r, k):
     """what the scripted server answers to a status request (status_message = position, as in the model)"""
     shape = r[2] if len(r) > 2 else None
+    if isinstance(shape, list):      # explicit body (full machine): progress in quarters, times as integers or None
+        p, c, st, d = shape
+        return {"status": r[1], "progress": p / 4.0, "progress_message": "phase", "status_message": f"m{k}",
+                "creation_datetime": c, "start_time": st, "duration": d}
     if shape == "q":      # a job that never left the queue: nothing started, nothing measured
         return {"status": r[1], "progress": 0.0, "progress_message": None, "status_message": f"m{k}",
                 "creation_datetime": 1.0, "start_time": None, "duration": None}
@@ -226,8 +243,10 @@ def status_body(r, k):
 
 
 def body_name(r):
-    return {"q": "body of a job still queued", "z": "body with zero time fields"}.get(
-        r[2] if len(r) > 2 else None, "body of a started job")
+    shape = r[2] if len(r) > 2 else None
+    if isinstance(shape, list):
+        return "body with progress/creation/start/duration = %s" % (shape,)
+    return {"q": "body of a job still queued", "z": "body with zero time fields"}.get(shape, "body of a started job")
 
 
 def shown(job):
@@ -287,13 +306,248 @@ class Oracle:
         self.cancelled_queued = False  # a cancel was accepted while the job had never been seen started
 
 
-def run_history(world: World, ops):
-    """-> (outs, hits, tags).  hits = [(signature, step, what)] from the direct oracles."""
-    job = world.RemoteJob({"payload": {}}, world.handler, "verif")
+EXTRA_KINDS = ("td", "ro", "rs", "n", "y")
+
+
+def num(x):
+    if x is None:
+        return "N"
+    x = float(x)
+    return str(int(x)) if x.is_integer() else repr(x)
+
+
+def ts_obs(world, job):
+    """the public time / progress accessors of the job's JobStatus, read without causing a status request: with
+    an enormous refresh delay the `status` property hands out the object as it is"""
+    RJ = world.RemoteJob
+    saved = RJ.STATUS_REFRESH_DELAY
+    RJ.STATUS_REFRESH_DELAY = 10 ** 12
+    try:
+        js = job.status
+    finally:
+        RJ.STATUS_REFRESH_DELAY = saved
+    try:
+        rt = num(js.running_time)
+    except (AssertionError, TypeError) as e:
+        rt = type(e).__name__
+    return f"{num(js.creation_timestamp)},{num(js.start_timestamp)},{num(js.duration)},{num(js.progress * 4)}", rt
+
+
+def full_suffix(world, job):
+    ts, rt = ts_obs(world, job)
+    return f"|{job.name}|{ts}|{rt}"
+
+
+def dict_str(d):
+    i = d.get("id")
+    ci = "N" if i is None else (i[4:] if isinstance(i, str) and i.startswith("job-") else "?" + str(i))
+    body = d.get("body")
+    return f"dict:{ci}:{d.get('status') or 'N'}:{body['job_name'] if body is not None else '-'}"
+
+
+def streak_verdict(orc, r):
+    """the property's verdict on one failed status answer: (n, fatal, must_raise, want)"""
+    orc.fails += 1
+    fatal = r[0] == "h" and r[1] not in TRANSIENT
+    want = "exc:ConnectionError" if r[0] == "c" else f"exc:HTTPError:{r[1]}"
+    return orc.fails, fatal, (orc.fails > MAX_ABSORBED or fatal), want
+
+
+def extra_step(world, job, orc, k, op, full, hits, tags):
+    """operations of the full machine: _to_dict, reopen (_from_dict(_to_dict())), from_id, name, execute_sync.
+    -> (res, job, orc)"""
+    kind = op[0]
+    handler = world.handler
+    RJ = world.RemoteJob
+    if kind == "td":
+        world.begin(k, [], None)
+        try:
+            res = dict_str(job._to_dict())
+            tags.add("to-dict")
+        except Exception as e:  # noqa: BLE001
+            res = exc_str(world, e, kind)
+            tags.add("to-dict-no-body")
+        return res, job, orc
+    if kind == "n":
+        world.begin(k, [], None)
+        try:
+            job.name = op[1] if op[1] is not None else 3
+            res = "ok"
+            tags.add("name-empty" if op[1] == "" else "name-set")
+        except TypeError:
+            res = "exc:TypeError"
+            tags.add("name-not-a-string")
+        return res, job, orc
+    if kind == "ro":
+        world.begin(k, [], None)
+        try:
+            d = job._to_dict()
+            new = RJ._from_dict(d, handler)
+            res = dict_str(d)
+        except Exception as e:  # noqa: BLE001
+            tags.add("reopen-no-body")
+            return exc_str(world, e, kind), job, orc
+        # the property across the dictionary: a sent job keeps its identifier and its status
+        if job.id is not None:
+            tags.add("reopen-sent")
+            if new.id != job.id or shown(new) != shown(job):
+                hits.append(("reopen-loses-status", k,
+                             f"step {k}: job {job.id} showing {shown(job)} re-created from its dictionary is job "
+                             f"{new.id} showing {shown(new)}"))
+            if shown(job) in FINAL_NAMES:
+                tags.add("reopen-final")
+        else:
+            tags.add("reopen-unsent")
+        norc = Oracle(new.id is not None)
+        norc.prev = shown(new)
+        if orc.final is not None and job.id is not None:
+            norc.final = orc.final
+        return res, new, norc
+    if kind == "rs":
+        if job.id is None:
+            world.begin(k, [], None)
+            return "ok", job, orc
+        r = op[1]
+        world.begin(k, [r], None)
+        new = None
+        try:
+            new = RJ.from_id(job.id, handler)
+            res = "st:" + shown(new)
+        except Exception as e:  # noqa: BLE001
+            res = exc_str(world, e, kind)
+        norc = Oracle(True)
+        wf = op_wf(op)
+        if len(world.served) != 1:
+            hits.append(("resume-no-read", k, f"step {k}: from_id sent {len(world.served)} status requests"))
+        elif r[0] == "s":
+            if r[1].lower() in ("error", "canceled"):
+                norc.failmsg = f"m{k}"
+            if wf and (new is None or (r[1] in MEANING and shown(new) != MEANING[r[1]]) or new.id != job.id):
+                hits.append(("status-not-last-read", k,
+                             f"step {k}: from_id({job.id}) with the server answering {r[1]!r} ({body_name(r)}) gave "
+                             f"{res}"))
+            tags.add("resume-read")
+        else:
+            n, fatal, must_raise, want = streak_verdict(norc, r)
+            if must_raise and res != want:
+                hits.append(("fatal-http-absorbed", k, f"step {k}: from_id: HTTP {r[1]} on the status request was not "
+                                                        f"raised (result {res})"))
+            elif not must_raise and res.startswith("exc:"):
+                hits.append(("transient-not-absorbed", k, f"step {k}: from_id: first transient failure was not "
+                                                          f"absorbed: {res[4:]}"))
+            tags.add("resume-fault")
+        if new is None:
+            return res, job, orc
+        norc.prev = shown(new)
+        return res, new, norc
+    # ---- execute_sync
+    _, h, rs, rh, d = op
+    clock = full["clock"]
+    clock.sleeps = []
+    world.begin(k, rs, h, h2=rh, pending_ok=True)
+    fin = None
+    try:
+        r = job.execute_sync()
+        fin = "res:empty" if r == {} else f"res:{r['results']['tok']}"
+    except ScriptExhausted:
+        fin = "pending"
+    except Exception as e:  # noqa: BLE001
+        fin = exc_str(world, e, "g")
+    calls, served = world.calls, world.served
+    polls = sum(1 for c in calls if c[0] == "S")
+    res = f"sync:{polls}:{len(clock.sleeps)}:{fin}"
+    # -- the property on the real trace of the call
+    nc = calls.count("C")
+    if orc.creates + nc > 1:
+        hits.append(("sent-twice", k, f"step {k}: execute_sync sent {nc} creation request(s) for a job object with "
+                                      f"{orc.creates} earlier submission(s)"))
+    orc.creates += nc
+    if nc:
+        tags.add("sync-accepted")
+    elif fin == "exc:AssertionError":
+        tags.add("sync-refused")
+    wf = op_wf(op)
+    for i, r in enumerate(served):
+        last = i == len(served) - 1
+        if r[0] == "s":
+            orc.fails = 0
+            if r[1].lower() in ("error", "canceled"):
+                orc.failmsg = f"m{k}"
+            final = MEANING.get(r[1]) in FINAL_NAMES
+            if final and not last and wf:
+                hits.append(("polls-after-final", k, f"step {k}: execute_sync went on polling after the server "
+                                                     f"answered {r[1]!r}"))
+            if last and r[1] in MEANING and not final and fin != "pending" and wf:
+                hits.append(("sync-returned-before-final", k,
+                             f"step {k}: execute_sync ended ({fin}) although the last status read is {r[1]!r}"))
+            if last and final and wf and not any(c[0] == "G" for c in calls):
+                hits.append(("sync-missed-final", k, f"step {k}: the server answered {r[1]!r} but execute_sync did "
+                                                     f"not return ({fin})"))
+            continue
+        n, fatal, must_raise, want = streak_verdict(orc, r)
+        if must_raise and not (last and fin == want):
+            hits.append(("fatal-http-absorbed" if fatal and n <= MAX_ABSORBED else "streak-absorbed-after-max", k,
+                         f"step {k}: execute_sync: failed status request number {n} of the streak "
+                         f"({'connection error' if r[0] == 'c' else 'HTTP %d' % r[1]}) was not raised as {want[4:]} "
+                         f"(outcome {fin})"))
+        elif not must_raise and last and fin == want:
+            hits.append(("transient-not-absorbed", k, f"step {k}: execute_sync raised {want[4:]} on transient failure "
+                                                      f"number {n}"))
+        tags.add("sync-raised" if must_raise else "sync-absorbed")
+    if clock.sleeps and any(x != d for x in clock.sleeps):
+        hits.append(("sync-sleep", k, f"step {k}: execute_sync slept {clock.sleeps} with refresh_progress_delay {d}"))
+    if fin == "pending":
+        tags.add("sync-pending")
+    elif fin.startswith("res:"):
+        tags.add("sync-returned")
+    elif ":failed:" in fin:
+        tags.add("sync-job-failed")
+        if orc.failmsg is not None and fin.rsplit(":", 1)[1] != orc.failmsg:
+            hits.append(("failed-message-lost", k, f"step {k}: the job failed with status message {orc.failmsg!r} but "
+                                                   f"execute_sync reports {fin.rsplit(':', 1)[1]!r}"))
+    return res, job, orc
+
+
+def body_wf(r):
+    """a status answer whose body a consistent server can send: a duration only together with a start time"""
+    if r[0] != "s" or len(r) < 3 or not isinstance(r[2], list):
+        return True
+    return not r[2][3] or bool(r[2][2])
+
+
+def op_wf(op):
+    if op[0] == "y":
+        return all(body_wf(r) for r in op[2])
+    if op[0] == "rs":
+        return body_wf(op[1])
+    return all(body_wf(r) for r in status_answers(op))
+
+
+def run_history(world: World, ops, full=None):
+    """-> (outs, hits, tags).  hits = [(signature, step, what)] from the direct oracles.
+    full = None: the base machine (real clock, names and time fields not looked at);
+    full = {"clock", "t0", "name", "delay", "times"}: the full machine (scripted clock, op k at time times[k-1])."""
+    if full is None:
+        job = world.RemoteJob({"payload": {}}, world.handler, "verif")
+    else:
+        full["clock"].now = float(full["t0"])
+        job = world.RemoteJob({"payload": {}}, world.handler, full["name"], refresh_progress_delay=full["delay"])
     orc = Oracle(False)
     outs, hits, tags = [], [], set()
     for k, op in enumerate(ops, 1):
         kind = op[0]
+        if full is not None:
+            full["clock"].now = float(full["times"][k - 1])
+        if kind in EXTRA_KINDS:
+            res, job, orc = extra_step(world, job, orc, k, op, full, hits, tags)
+            sh = shown(job)
+            if orc.final is not None and sh != orc.final:
+                hits.append(("final-status-changed", k, f"step {k}: status shown went from {orc.final} to {sh}"))
+            if sh in FINAL_NAMES:
+                orc.final = sh
+            orc.prev = sh
+            outs.append(f"{res}|{cid(job)}|{sh}|{','.join(world.calls)}" + full_suffix(world, job))
+            continue
         if kind == "x":
             world.begin(k, [], op[1])
         elif kind == "p":
@@ -352,7 +606,7 @@ def run_history(world: World, ops):
                 tags.add("reset")
                 if r[1].lower() in ("error", "canceled"):
                     orc.failmsg = f"m{k}"
-                if len(r) > 2 and r[2] == "q":
+                if len(r) > 2 and (r[2] == "q" or (isinstance(r[2], list) and not r[2][2])):
                     tags.add("queued-body")
                     if orc.cancelled_queued and orc.queued_only and r[1] == "cancel_requested":
                         tags.add("cancel-requested-after-queued-cancel")
@@ -482,9 +736,14 @@ def run_history(world: World, ops):
         # -- no exception class outside the documented ones (a ScriptExhausted is the harness' own: model mismatch)
         if res.startswith("exc:") and not res.startswith(("exc:HTTPError", "exc:ConnectionError", "exc:RuntimeError",
                                                           "exc:ScriptExhausted")) \
-                and not (kind == "x" and res == "exc:AssertionError") and not hits:
+                and not (kind == "x" and res == "exc:AssertionError") and not hits \
+                and not (res == "exc:TypeError" and (not op_wf(op) or (kind == "r" and full is not None))):
+            # (full machine: a TypeError is the modelled outcome of a status body with a duration but no start time,
+            #  and of rerun() on a job re-created without request data; judged through the model only)
             hits.append(("unexpected-exception", k, f"step {k}: the call raised {res[4:]}"))
         # ---------------- coverage tags ----------------
+        if full is not None and res == "exc:TypeError":
+            tags.add("rerun-no-body" if kind == "r" and op_wf(op) else "time-type-error")
         if len(served) == 2:
             tags.add("second-read")
         if res == "exc:AssertionError":
@@ -521,7 +780,7 @@ def run_history(world: World, ops):
         if sh in FINAL_NAMES:
             orc.final = sh
         orc.prev = sh
-        outs.append(f"{res}|{cid(job)}|{sh}|{','.join(calls)}")
+        outs.append(f"{res}|{cid(job)}|{sh}|{','.join(calls)}" + (full_suffix(world, job) if full is not None else ""))
     if world.anomalies:
         hits.append(("handler-glue", 0, world.anomalies[0]))
         world.anomalies = []
@@ -887,14 +1146,24 @@ def gen_lifecycle(rng, max_len):
 # the throttle (real clock replaced by a scripted one), model: `readStatusAt`
 # ------------------------------------------------------------------------------------------------
 class FakeClock:
-    def __init__(self):
+    def __init__(self, world=None):
         self.now = 0.0
+        self.sleeps = []
+        self.max_sleeps = 3000
+        self.world = world
 
     def time(self):
         return self.now
 
     def sleep(self, s):
+        if s < 0:
+            raise ValueError("sleep length must be non-negative")     # what time.sleep does
+        if len(self.sleeps) >= self.max_sleeps:
+            raise LoopRunaway(f"{len(self.sleeps)} sleeps in one call")  # never hang on a loop that cannot end
         self.now += s
+        self.sleeps.append(s)
+        if self.world is not None:
+            self.world.events.append("z")
 
 
 @contextlib.contextmanager
@@ -1056,6 +1325,356 @@ def check_throttle(chk, world, n):
 
 
 # ------------------------------------------------------------------------------------------------
+# the full machine (Model/C17X.lean): time / progress fields, name, _to_dict / _from_dict / from_id, execute_sync
+# ------------------------------------------------------------------------------------------------
+@contextlib.contextmanager
+def fullclock(world):
+    """scripted clock for remote_job.py (time.time / time.sleep) and job_status.py (time / sleep); the refresh
+    delay stays at -1: every status read is due"""
+    from perceval.runtime import job_status as jsm
+    saved = (world.rjm.time, jsm.time, jsm.sleep)
+    clock = FakeClock(world)
+    try:
+        world.rjm.time = clock
+        jsm.time = clock.time
+        jsm.sleep = clock.sleep
+        yield clock
+    finally:
+        world.rjm.time, jsm.time, jsm.sleep = saved
+
+
+NAMES = ["verif", "", "a b", "unnamed", "resumed", "x"]
+
+
+def rand_body(rng, started, allow_bad=False):
+    p = rng.choice([0, 1, 2, 3, 4])
+    c = rng.choice([None, 0, 1, 5, 40])
+    st = rng.choice([2, 7, 30]) if started else rng.choice([None, None, 0])
+    d = rng.choice([None, 0, 3, 9]) if started else rng.choice([None, None, 0])
+    if allow_bad and rng.random() < 0.5:
+        st, d = rng.choice([None, 0]), rng.choice([3, 9])       # a duration without a start time
+    return [p, c, st, d]
+
+
+def rand_answer_full(rng, fail_bias, started, allow_bad=False):
+    r = rand_status_answer(rng, fail_bias)
+    if r[0] == "s":
+        return ["s", r[1], rand_body(rng, started if r[1] != "waiting" else (started and rng.random() < 0.3),
+                                     allow_bad)]
+    return r
+
+
+def gen_sync(rng, d):
+    """execute_sync against a server that lets the job wait, run and end (or not), with faults"""
+    h = OK if rng.random() < 0.85 else rand_h(rng)
+    rs = []
+    state, started = "waiting", False
+    n = rng.randint(0, 9)
+    fault = rng.choice([0.0, 0.2, 0.6, 0.85])
+    ends = rng.random() < 0.75
+    for i in range(n):
+        y = rng.random()
+        if y < fault:
+            z = rng.random()
+            rs.append(H(rng.choice(TRANSIENT)) if z < 0.55 else (CONN if z < 0.9 else H(rng.choice([404, 500, 503]))))
+            continue
+        if rng.random() < 0.45:
+            if state == "waiting":
+                state, started = "running", True
+            elif state == "running":
+                state = rng.choice(["completed", "completed", "error", "canceled", "suspended", "unknown", "bogus"])
+            elif state in ("suspended", "unknown", "bogus"):
+                state = "running"
+        if i == n - 1 and ends and state not in ("completed", "error", "canceled"):
+            state, started = rng.choice(["completed", "completed", "error", "canceled"]), True
+        rs.append(["s", state, rand_body(rng, started)])
+    return ["y", h, rs, rand_rh(rng), d]
+
+
+def gen_full(rng, max_len):
+    t0 = rng.randint(1, 60)
+    d0 = rng.choice([1, 2, 3, 5])
+    hist = {"t0": t0, "name": rng.choice(NAMES), "delay": d0, "fops": []}
+    n = rng.randint(1, max_len)
+    now = t0
+    cur_delay = d0
+    started = False
+    ops = hist["fops"]
+    first = rng.random()
+    if first < 0.3:
+        op = gen_sync(rng, cur_delay)
+        ops.append([now, op])
+        now += len(op[2]) * cur_delay
+        started = True
+    elif first < 0.9:
+        ops.append([now, ["x", OK if rng.random() < 0.9 else rand_h(rng)]])
+    bias = False
+    streak_left = 0
+    while len(ops) < n:
+        now += rng.choice([0, 1, 1, 2, 7])
+        if streak_left == 0 and rng.random() < 0.15:
+            streak_left = rng.randint(3, 8)
+        bias = streak_left > 0
+        streak_left = max(0, streak_left - 1)
+        if rng.random() < 0.25:
+            started = True
+        x = rng.random()
+        a1 = rand_answer_full(rng, bias, started)
+        a2 = rand_answer_full(rng, bias, started)
+        if x < 0.34:
+            bad = rng.random() < 0.06
+            if bad:
+                a1 = ["s", rng.choice(["completed", "canceled", "error", "running"]), rand_body(rng, False, True)]
+            op = ["p", 0 if rng.random() < 0.6 else rng.randint(1, 5), a1]
+        elif x < 0.44:
+            op = ["c", a1, rand_h(rng)]
+        elif x < 0.55:
+            sw = rng.random() < 0.6
+            op = ["r", a1, a2, rand_h(rng), sw]
+            if sw:
+                cur_delay, started = 3, False
+        elif x < 0.65:
+            op = ["g", a1, a2, rand_rh(rng)]
+        elif x < 0.70:
+            op = ["x", rand_h(rng)]
+        elif x < 0.76:
+            op = ["td"]
+        elif x < 0.86:
+            op = ["ro"]
+            cur_delay = 3
+        elif x < 0.93:
+            bad = rng.random() < 0.08
+            r = rand_answer_full(rng, rng.random() < 0.3, started)
+            if bad:
+                r = ["s", rng.choice(["completed", "canceled"]), rand_body(rng, False, True)]
+            op = ["rs", r]
+            cur_delay = 3
+        elif x < 0.96:
+            op = ["n", rng.choice(NAMES + [None])]
+        else:
+            op = gen_sync(rng, cur_delay)
+        ops.append([now, op])
+        if op[0] == "y":
+            now += len(op[2]) * op[4]
+    return hist
+
+
+def full_request(hist):
+    return {"fixed": True, "t0": hist["t0"], "name": hist["name"], "fops": hist["fops"]}
+
+
+def judge_full(chk, world, clock, hist, lean_outs=None):
+    ops = [o for _, o in hist["fops"]]
+    full = {"clock": clock, "t0": hist["t0"], "name": hist["name"], "delay": hist["delay"],
+            "times": [t for t, _ in hist["fops"]]}
+    outs, hits, tags = run_history(world, ops, full)
+    if lean_outs is None:
+        rep = chk.lean.ask(full_request(hist))
+        if "err" in rep:
+            return ("broken", "driver-rejects", f"Lean driver rejected the full history: {rep['err']}",
+                    {"full": hist}), tags
+        lean_outs = rep["outs"]
+    if hits:
+        sig, k, what = hits[0]
+        return ("violation", sig, what, {"full": hist, "real": outs, "model": lean_outs}), tags
+    mismatch = next((i for i, (x, y) in enumerate(zip(outs, lean_outs)) if x != y), None)
+    if mismatch is not None:
+        return ("broken", "full-model-vs-code",
+                f"step {mismatch + 1} ({hist['fops'][mismatch][1][0]}): real code gives {outs[mismatch]!r}, full model "
+                f"gives {lean_outs[mismatch]!r}; no direct oracle fails",
+                {"full": hist, "real": outs, "model": lean_outs}), tags
+    return None, tags
+
+
+def shrink_full(chk, world, clock, hist, sig):
+    cur = dict(hist)
+    budget = 250
+    changed = True
+    while changed and budget > 0:
+        changed = False
+        for i in range(len(cur["fops"])):
+            cand = dict(cur, fops=cur["fops"][:i] + cur["fops"][i + 1:])
+            if not cand["fops"]:
+                continue
+            budget -= 1
+            r, _ = judge_full(chk, world, clock, cand)
+            if r is not None and r[1] == sig:
+                cur = cand
+                changed = True
+                break
+    return cur
+
+
+def report_full(chk, world, clock, r):
+    kind, sig, what, rep = r
+    seen = chk.extra.setdefault("_reported", set())
+    if (kind, sig) in seen:
+        return
+    seen.add((kind, sig))
+    small = shrink_full(chk, world, clock, rep["full"], sig)
+    r2, _ = judge_full(chk, world, clock, small)
+    if r2 is not None and r2[1] == sig:
+        kind, sig, what, rep = r2
+    chk.fail(kind, sig, what, rep)
+
+
+def full_nontrivial(hist):
+    kinds = {o[0] for _, o in hist["fops"]}
+    return bool(kinds & set(EXTRA_KINDS)) and len(hist["fops"]) >= 3
+
+
+def full_alphabet():
+    """letters of the exhaustive part of the full machine (times: one unit per step)"""
+    run_b, que_b, end_b, bad_b = [2, 5, 2, None], [0, 1, None, None], [4, 5, 2, 3], [0, 1, None, 3]
+    return [["x", OK], ["x", H(400)],
+            ["p", 0, ["s", "running", run_b]], ["p", 0, ["s", "waiting", que_b]], ["p", 0, ["s", "completed", end_b]],
+            ["p", 0, ["s", "error", end_b]], ["p", 0, ["s", "canceled", bad_b]], ["p", 0, CONN], ["p", 1, H(500)],
+            ["c", ["s", "waiting", que_b], OK],
+            ["r", ["s", "canceled", que_b], CONN, OK, True], ["r", CONN, CONN, OK, False],
+            ["g", ["s", "completed", end_b], CONN, OK], ["g", CONN, CONN, ["missing"]],
+            ["td"], ["ro"], ["rs", ["s", "running", run_b]], ["rs", ["s", "error", end_b]], ["rs", CONN],
+            ["rs", H(404)], ["n", ""], ["n", None],
+            ["y", OK, [["s", "waiting", que_b], CONN, ["s", "completed", end_b]], OK, 3],
+            ["y", OK, [["s", "running", run_b], H(500)], OK, 3]]
+
+
+def check_full(chk, world):
+    rng = chk.rng
+    hists = [gen_full(rng, chk.pick(16, 40)) for _ in range(chk.pick(1500, 12000))]
+    # exhaustive: every history of length <= 3 (quick) / 4 (thorough: reduced alphabet) over the full alphabet
+    alpha = full_alphabet()
+    depth = 3
+    nex = 0
+    for L in range(1, depth + 1):
+        for combo in itertools.product(alpha, repeat=L):
+            hists.append({"t0": 10, "name": "verif", "delay": 3, "exh": True,
+                          "fops": [[10 + 12 * i, o] for i, o in enumerate(combo)]})
+            nex += 1
+    if chk.thorough:
+        small = [alpha[i] for i in (0, 2, 5, 7, 11, 13, 15, 16, 17, 18, 22)]
+        for combo in itertools.product(small, repeat=4):
+            hists.append({"t0": 10, "name": "", "delay": 3, "exh": True,
+                          "fops": [[10 + 12 * i, o] for i, o in enumerate(combo)]})
+            nex += 1
+        for combo in itertools.product([alpha[i] for i in (0, 7, 15, 18, 22)], repeat=6):
+            hists.append({"t0": 10, "name": "x", "delay": 3, "exh": True,
+                          "fops": [[10 + 12 * i, o] for i, o in enumerate(combo)]})
+            nex += 1
+    t0 = time.time()
+    reps = chk.lean.ask_many([full_request(h) for h in hists])
+    with fullclock(world) as clock:
+        for h, rep in zip(hists, reps):
+            exh = h.pop("exh", False)
+            if "err" in rep:
+                chk.fail("broken", "driver-rejects", rep["err"], {"full": h})
+                continue
+            r, tags = judge_full(chk, world, clock, h, rep["outs"])
+            for t in tags:
+                chk.branch(t)
+            chk.branch("full-history")
+            chk.count("source", "full-exhaustive" if exh else "full-random")
+            for _, o in h["fops"]:
+                chk.count("full_op_kind", o[0])
+            chk.case("F" + json.dumps(h["fops"]), full_nontrivial(h),
+                     None if exh else {"source": "full", "len": len(h["fops"]), "fops": h["fops"][:4]})
+            if r is not None:
+                report_full(chk, world, clock, r)
+    chk.extra["full_machine"] = {"random_histories": len(hists) - nex, "exhaustive_histories": nex,
+                                 "letters": len(alpha), "seconds": round(time.time() - t0, 1)}
+
+
+# ------------------------------------------------------------------------------------------------
+# execute_sync with the real throttle (shipped delay of 1 s) and a scripted clock, model: `syncLoopAt`
+# ------------------------------------------------------------------------------------------------
+def run_sync_clock(world, clock, sc):
+    """-> (events, end): the requests and sleeps of one execute_sync() in order, and how it ended"""
+    clock.now = sc["now"] / 4.0
+    clock.sleeps = []
+    job = world.RemoteJob({"payload": {}}, world.handler, "verif", refresh_progress_delay=sc["d"] / 4.0)
+    world.begin(1, sc["rs"], OK, h2=OK, pending_ok=True)
+    try:
+        job.execute_sync()
+        end = "complete"
+    except ScriptExhausted:
+        end = "pending"
+    except Exception as e:  # noqa: BLE001
+        end = "raised:" + exc_str(world, e, "p")
+    ev = [e for e in world.events]
+    bad_sleep = [x for x in clock.sleeps if x != sc["d"] / 4.0]
+    return ev, end, bad_sleep
+
+
+def model_sync_events(rep):
+    ev = []
+    outs = rep["outs"]
+    for i, o in enumerate(outs):
+        res, calls = o.split("|")
+        if calls:
+            ev.extend(calls.split(","))
+        ending = i == len(outs) - 1 and rep["end"] != "pending"
+        if not ending:
+            ev.append("z")
+    end = rep["end"]
+    if end == "raised":
+        end = "raised:" + outs[-1].split("|")[0]
+    return ev, end
+
+
+def gen_sync_clock(rng):
+    d = rng.choice([1, 2, 3, 4, 5, 5, 8, 12, 12])
+    now = rng.choice([0, 2, 4, 5, 6, 100, 100])
+    op = gen_sync(rng, d)
+    return {"d": d, "now": now, "fuel": 400, "rs": [r[:2] for r in op[2]]}
+
+
+def judge_sync_clock(chk, world, clock, sc):
+    ev, end, bad_sleep = run_sync_clock(world, clock, sc)
+    real_ev = [e for e in ev if e != "C" and not e.startswith("G")]
+    rep = chk.lean.ask({"fixed": True, "delay": DELAY_Q, "syncclock": sc})
+    if "err" in rep:
+        return ("broken", "driver-rejects", f"Lean driver rejected the clocked execute_sync: {rep['err']}",
+                {"syncclock": sc})
+    mev, mend = model_sync_events(rep)
+    # direct: the loop must not poll after a final status, must end on it, and sleeps the configured delay
+    if bad_sleep:
+        return ("broken", "sync-sleep", f"execute_sync slept {bad_sleep} with refresh_progress_delay {sc['d'] / 4.0}",
+                {"syncclock": sc})
+    if (real_ev, end) != (mev, mend):
+        return ("broken", "sync-clock-model-vs-code",
+                f"clocked execute_sync: real code does {' '.join(real_ev)} and ends {end}; model does {' '.join(mev)} "
+                f"and ends {mend}", {"syncclock": sc, "real": [real_ev, end], "model": [mev, mend]})
+    return None
+
+
+def check_sync_clock(chk, world, n):
+    with clocked(world) as clock:
+        clock.world = world
+        for _ in range(n):
+            sc = gen_sync_clock(chk.rng)
+            r = judge_sync_clock(chk, world, clock, sc)
+            chk.evaluations += 1
+            chk.count("source", "sync-clock")
+            chk.branch("sync-clock-spaced" if sc["d"] > DELAY_Q else "sync-clock-throttled")
+            if r is not None:
+                seen = chk.extra.setdefault("_reported", set())
+                if (r[0], r[1]) in seen:
+                    continue
+                seen.add((r[0], r[1]))
+                # shrink: drop answers
+                cur = sc
+                changed = True
+                while changed:
+                    changed = False
+                    for i in range(len(cur["rs"])):
+                        cand = dict(cur, rs=cur["rs"][:i] + cur["rs"][i + 1:])
+                        r2 = judge_sync_clock(chk, world, clock, cand)
+                        if r2 is not None and r2[1] == r[1]:
+                            cur, r, changed = cand, r2, True
+                            break
+                chk.fail(*r)
+
+
+# ------------------------------------------------------------------------------------------------
 def load_corpus():
     out = []
     for p in sorted(glob.glob(os.path.join(core.VERIF, "corpus", "C17", "*.json"))):
@@ -1090,7 +1709,12 @@ def setup(chk):
         "rerun-switch", "rerun-refused", "results-fetched", "results-cached", "results-refused", "failed-message",
         "unknown-string", "throttled", "due-read", "whitelist-probe",
         "last-read-checked", "status-kept-checked", "guard-on-kept-status", "queued-body", "cancel-while-queued",
-        "cancel-requested-after-queued-cancel", "lifecycle"]
+        "cancel-requested-after-queued-cancel", "lifecycle",
+        # the full machine
+        "full-history", "to-dict", "to-dict-no-body", "reopen-sent", "reopen-unsent", "reopen-final", "reopen-no-body",
+        "resume-read", "resume-fault", "name-empty", "name-not-a-string", "rerun-no-body", "time-type-error",
+        "sync-accepted", "sync-refused", "sync-raised", "sync-absorbed", "sync-pending", "sync-returned",
+        "sync-job-failed", "sync-clock-spaced", "sync-clock-throttled"]
     return World()
 
 
@@ -1109,8 +1733,17 @@ def probe_whitelist(chk, world):
 
 
 def run(chk: core.Check):
+    tsec = {}
+    tm = time.time()
+
+    def lap(name):
+        nonlocal tm
+        tsec[name] = round(time.time() - tm, 1)
+        tm = time.time()
+
     world = setup(chk)
     found = {"count": collections.Counter(), "examples": collections.defaultdict(list)}
+    lap("setup")
     # 1. corpus
     for ops in load_corpus():
         handle(chk, world, ops, "corpus")
@@ -1130,6 +1763,7 @@ def run(chk: core.Check):
         if source == "lifecycle":
             chk.branch("lifecycle")
         handle(chk, world, h, source, rep["outs"])
+    lap("corpus+whitelist+random")
     # 4. exhaustive enumeration
     parts = [(alphabet_full(), chk.pick(3, 4), "full"),
              (alphabet_deep(chk.thorough), chk.pick(7, 8), "deep")]
@@ -1145,8 +1779,11 @@ def run(chk: core.Check):
             nontriv += nt
             wreq += lr
     chk.exhaustive = True
+    lap("exhaustive")
     chk.extra["distinct_nontrivial"] = len(chk.sigs) + nontriv
     chk.extra["distinct_histories"] = len(chk.sigs) + distinct
+    lap("sync-clock")
+    chk.extra["section_seconds"] = tsec
     chk.extra["lean_requests_workers"] = wreq
     chk.extra["exhaustive_disagreements"] = dict(found["count"])
     # 5. triage of what the exhaustive part found (violations first)
@@ -1160,6 +1797,18 @@ def run(chk: core.Check):
     # 6. the throttle, against the clocked model (last, so that a defect both parts see is reported with a
     #    history replay)
     check_throttle(chk, world, chk.pick(300, 3000))
+    lap("throttle")
+    # 7. the full machine: time / progress fields, name, _to_dict / _from_dict / from_id, execute_sync
+    check_full(chk, world)
+    lap("full")
+    # 8. execute_sync's polling loop under the real throttle
+    t8 = time.time()
+    check_sync_clock(chk, world, chk.pick(400, 4000))
+    chk.extra["sync_clock"] = {"cases": chk.pick(400, 4000), "seconds": round(time.time() - t8, 1)}
+    chk.extra["distinct_nontrivial"] = len(chk.sigs) + nontriv
+    chk.extra["distinct_histories"] = len(chk.sigs) + distinct
+    lap("sync-clock")
+    chk.extra["section_seconds"] = tsec
     chk.extra.pop("_reported", None)
 
 
@@ -1168,6 +1817,22 @@ def replay(chk, data):
     chk.required_branches = []
     chk.rule = "replay of one stored history"
     rep = data["replay"]
+    if "full" in rep:
+        with fullclock(world) as clock:
+            r, _ = judge_full(chk, world, clock, rep["full"])
+            chk.evaluations += 1
+            if r is not None:
+                report_full(chk, world, clock, r)
+        chk.extra.pop("_reported", None)
+        return
+    if "syncclock" in rep:
+        with clocked(world) as clock:
+            clock.world = world
+            r = judge_sync_clock(chk, world, clock, rep["syncclock"])
+            chk.evaluations += 1
+            if r is not None:
+                chk.fail(*r)
+        return
     if "clock" in rep:
         with clocked(world) as clock:
             r, _ = judge_clock(chk, world, clock, rep["clock"])
